@@ -6,6 +6,8 @@ from ..tables import t4_compose
 def run(ctx: Ctx) -> None:
     t4_compose.run_bch(ctx)
     t4_compose.run_compose(ctx)
+    t4_compose.run_compose_dtype(ctx)
+    ctx.floor("T4.dtype", 8)
     ctx.floor("T4.bch", 7)
     ctx.floor("T4.compose", 4)
     ctx.floor("T4.logv-convention", 4)
